@@ -21,14 +21,14 @@ struct Params {
 }
 
 fn request(c: usize, j: usize) -> Vec<Vec<u8>> {
-    // REQ-style: delimiter + payload of 1..3 frames incl. empty frames
+    // REQ-style: delimiter + payload of 1..3 frames incl. empty frames and frames at the 255/256 size boundary
     let tag = format!("c{}r{}", c, j).into_bytes();
     // (a payload that ENDS with an empty frame comes first: its last bytes on a connection are the header of a
     // zero-length frame, with nothing behind them to push a parked message out)
     match (c * 2 + j) % 4 {
         0 => vec![vec![], tag, vec![]],
-        1 => vec![vec![], tag, vec![], b"x".to_vec()],
-        2 => vec![vec![], vec![], tag],
+        1 => vec![vec![], tag, vec![], rc::pattern(256, 3, 0)],
+        2 => vec![vec![], vec![], tag, rc::pattern(255, 4, 0)],
         _ => vec![vec![], tag],
     }
 }
